@@ -58,8 +58,22 @@ def gen(seed):
         beh = ["delay", rng.choice((1.01, 1.2, 1.5, 1.9, 2.5))] if r < 0.8 else (["never"] if r < 0.9 else ["prompt"])
         reqs = [dict(i=0, kind="versions", broker=brokers[0], t=0.0, beh=beh, cancel=None)]
         blackhole = None
+    dot = (rng.random() < 0.5) and not versions_only
+    latency = rng.choice((0.0, 0.0, 0.003))
+    # (own stream) a request to the same broker issued in the moment between a timeout dropping the connection and the
+    # transport reporting the loss; it goes unanswered too
+    rng3 = random.Random((seed * 40503) ^ 0xC11)
+    if dot and rng3.random() < 0.4:
+        cands = [r for r in reqs if r["beh"][0] == "never" or (r["beh"][0] == "delay" and r["beh"][1] > 1.0)]
+        cands = [r for r in cands if r["kind"] in ("fetch", "offsets", "produce", "heartbeat") and r["cancel"] is None]
+        if cands:
+            r0 = rng3.choice(cands)
+            reqs.append(dict(i=100, kind=rng3.choice(("fetch", "offsets")), broker=r0["broker"],
+                             t=round(r0["t"] + T + 1e-6, 7), beh=rng3.choice((["never"], ["never"], ["prompt"])),
+                             cancel=None, in_window_of=r0["i"]))
+            latency = 0.003
     return dict(seed=seed, T=T, brokers=brokers, blackhole=blackhole, reqs=reqs, versions_only=versions_only,
-                disconnect_on_timeout=(rng.random() < 0.5) and not versions_only, latency=rng.choice((0.0, 0.0, 0.003)))
+                disconnect_on_timeout=dot, latency=latency)
 
 
 def run_once(sc, ghost):
@@ -215,12 +229,18 @@ def run_once(sc, ghost):
                                                             encoder_fn=KafkaCodec.encode_heartbeat_request,
                                                             decode_fn=KafkaCodec.decode_heartbeat_response)
                 else:
-                    payload = C._JoinGroupRequest(group, 30000, "", "consumer",
-                                                  [C._JoinGroupRequestProtocol("consumer", b"\\0\\0\\0\\0\\0\\0\\0\\0\\0\\0")])
-                    d = client._send_request_to_coordinator(group, payload,
-                                                            encoder_fn=KafkaCodec.encode_join_group_request,
-                                                            decode_fn=KafkaCodec.decode_join_group_response,
-                                                            min_timeout=35.0)
+                    # the join goes out the way a group member sends it: through a real Coordinator (its session
+                    # timeout drawn; the stated minimum for joins does not depend on it), with the follow-up the
+                    # coordinator would schedule on failure switched off
+                    from afkak._group import Coordinator
+
+                    class _OneShot(Coordinator):
+                        def rejoin_after_error(self, result, label=None):
+                            return result
+                    sess = random.Random(sc["seed"] * 31 + i).choice((6000, 10000, 30000, 30000, 45000, 60000, 120000))
+                    coord = _OneShot(client, group, [topic], session_timeout_ms=sess)
+                    rec.setdefault("join_sessions", []).append(sess)
+                    d = coord.send_join_group_request()
             except Exception as e:
                 out["fires"].append((w.clock.seconds(), False, type(e).__name__))
                 return
